@@ -172,4 +172,175 @@ theorem getmark_frame (hia : InstrAt X.p a (i0 opGetmark)) (v : Int) : Framed X.
 
 end cut
 
+/-! ## the three constructs -/
+
+section nodes
+variable {X : Setup} {a i sz : Nat} {T S : List Int} {C : List (Nat × Nat × Nat)} {s : VMState} {body : Code}
+  {rs : List St}
+
+/-- `Atomic`: `Setjump; ⟨body⟩; Forejump` keeps the first success of the body and cuts its frames -/
+theorem atomic_delivers (hT : T ≠ []) (hcode : CodeAt X.p a ([i0 opSetjump] ++ body ++ [i0 opForejump]))
+    (hsz : codeLen body = sz) (he : Entry X a i T S C s) (hext : ∀ r ∈ rs, ∃ ext, r.caps = C ++ ext)
+    (hbody : ∀ s1, Entry X (a + 1) i ((a : Int) :: T) ((C.length : Int) :: (T.length : Int) :: S) C s1 →
+      Delivers X (a + 1 + sz) ((a : Int) :: T) ((C.length : Int) :: (T.length : Int) :: S)
+        ((C.length : Int) :: (T.length : Int) :: S) C rs s1) :
+    Delivers X (a + 1 + sz + 1) T S S C (rs.take 1) s := by
+  have h1 : CodeAt X.p a ([i0 opSetjump] ++ body) := hcode.left'
+  have hsj : InstrAt X.p a (i0 opSetjump) := (h1.left').instr
+  have hfj : InstrAt X.p (a + 1 + sz) (i0 opForejump) := by
+    have := hcode.right
+    rw [codeLen_append, hsz] at this
+    exact (this.cast (by simp; omega) rfl).instr
+  have hend : ∃ w, VM.fetch X.p (a + 1 + sz + 1) = .ok w := by
+    have := hcode.fetch_end
+    simp only [codeLen_append, hsz] at this
+    simpa [Nat.add_assoc] using this
+  have hf1 : ∃ w, VM.fetch X.p (a + 1) = .ok w := by simpa using (h1.left').fetch_end
+  obtain ⟨s1, hr1, he1⟩ := setjump_leads he hsj hf1
+  refine Delivers.of_reach hr1 ?_
+  have hb := hbody s1 he1
+  cases rs with
+  | nil =>
+    obtain ⟨s2, hr2, hf2⟩ := hb
+    exact Leads.of_reach hr2 (setjump_back hf2 hsj)
+  | cons r rs' =>
+    obtain ⟨F, hF, ⟨s2, hr2, he2⟩, _⟩ := hb
+    obtain ⟨ext, hx⟩ := hext r (by simp)
+    simp only [List.take_succ_cons, List.take_zero]
+    refine ⟨[((a + 1 + sz : Nat) : Int), (C.length : Int)], forejump_frame hfj _, ?_, ?_⟩
+    · refine Leads.of_reach hr2 ?_
+      have he2' : Entry X (a + 1 + sz) r.pos ((F ++ [(a : Int)]) ++ T) ((C.length : Int) :: (T.length : Int) :: S)
+          r.caps s2 := by simpa using he2
+      have := forejump_leads (hF.append (setjump_frame hsj)) hT he2' hfj hend
+      simpa using this
+    · intro s'' hf''
+      rw [hx] at hf''
+      exact forejump_back (by simpa using hf'') hfj
+
+/-- positive lookahead: `Setjump; Setmark; ⟨body⟩; Getmark; Forejump` -/
+theorem poslook_delivers {TPx : TP} {sets : List (List Nat)} (hrel : EnvRel TPx sets X.env X.se) (hi : i ≤ X.se.n)
+    (hT : T ≠ []) (hcode : CodeAt X.p a ([i0 opSetjump, i0 opSetmark] ++ body ++ [i0 opGetmark, i0 opForejump]))
+    (hsz : codeLen body = sz) (he : Entry X a i T S C s) (hext : ∀ r ∈ rs, ∃ ext, r.caps = C ++ ext)
+    (hbody : ∀ s1, Entry X (a + 2) i (((a + 1 : Nat) : Int) :: (a : Int) :: T)
+        ((i : Int) :: (C.length : Int) :: (T.length : Int) :: S) C s1 →
+      Delivers X (a + 2 + sz) (((a + 1 : Nat) : Int) :: (a : Int) :: T)
+        ((i : Int) :: (C.length : Int) :: (T.length : Int) :: S)
+        ((i : Int) :: (C.length : Int) :: (T.length : Int) :: S) C rs s1) :
+    Delivers X (a + 2 + sz + 2) T S S C
+      (match rs with
+       | [] => []
+       | st' :: _ => [⟨i, st'.caps⟩]) s := by
+  have h1 : CodeAt X.p a ([i0 opSetjump, i0 opSetmark] ++ body) := hcode.left'
+  have h12 : CodeAt X.p a ([i0 opSetjump] ++ [i0 opSetmark]) := h1.left'
+  have hsj : InstrAt X.p a (i0 opSetjump) := (h12.left').instr
+  have hsm : InstrAt X.p (a + 1) (i0 opSetmark) := by
+    have := h12.right
+    exact (this.cast (by simp) rfl).instr
+  have htail : CodeAt X.p (a + 2 + sz) ([i0 opGetmark] ++ [i0 opForejump]) := by
+    have := hcode.right
+    rw [codeLen_append, hsz] at this
+    exact this.cast (by simp; omega) rfl
+  have hgm : InstrAt X.p (a + 2 + sz) (i0 opGetmark) := (htail.left').instr
+  have hfj : InstrAt X.p (a + 2 + sz + 1) (i0 opForejump) := by
+    have := htail.right
+    exact (this.cast (by simp) rfl).instr
+  have hend : ∃ w, VM.fetch X.p (a + 2 + sz + 2) = .ok w := by
+    have := htail.fetch_end
+    simpa [Nat.add_assoc] using this
+  have hf1 : ∃ w, VM.fetch X.p (a + 1) = .ok w := ⟨_, hsm.fetch⟩
+  have hf2 : ∃ w, VM.fetch X.p (a + 2) = .ok w := by simpa using h12.fetch_end
+  have hf3 : ∃ w, VM.fetch X.p (a + 2 + sz + 1) = .ok w := ⟨_, hfj.fetch⟩
+  obtain ⟨s1, hr1, he1⟩ := setjump_leads he hsj hf1
+  obtain ⟨s1', hr1', he1'⟩ := setmark_leads he1 hsm hf2
+  refine Delivers.of_reach (hr1.trans hr1') ?_
+  have hb := hbody s1' he1'
+  cases rs with
+  | nil =>
+    obtain ⟨s2, hr2, hfl⟩ := hb
+    refine Leads.of_reach hr2 ?_
+    obtain ⟨s3, hr3, hfl3⟩ := setmark_back hfl hsm
+    exact Leads.of_reach hr3 (setjump_back hfl3 hsj)
+  | cons r rs' =>
+    obtain ⟨F, hF, ⟨s2, hr2, he2⟩, _⟩ := hb
+    obtain ⟨ext, hx⟩ := hext r (by simp)
+    refine ⟨[((a + 2 + sz + 1 : Nat) : Int), (C.length : Int)], forejump_frame hfj _, ?_, ?_⟩
+    · refine Leads.of_reach hr2 ?_
+      obtain ⟨s3, hr3, he3⟩ := getmark_leads hrel hi he2 hgm hf3
+      refine Leads.of_reach hr3 ?_
+      have hFr : Framed X.p ([((a + 2 + sz : Nat) : Int), (i : Int)] ++ (F ++ ([((a + 1 : Nat) : Int)] ++ [(a : Int)]))) :=
+        (getmark_frame hgm _).append (hF.append ((setmark_frame hsm).append (setjump_frame hsj)))
+      have he3' : Entry X (a + 2 + sz + 1) i
+          (([((a + 2 + sz : Nat) : Int), (i : Int)] ++ (F ++ ([((a + 1 : Nat) : Int)] ++ [(a : Int)]))) ++ T)
+          ((C.length : Int) :: (T.length : Int) :: S) r.caps s3 := by simpa using he3
+      have := forejump_leads hFr hT he3' hfj hend
+      simpa using this
+    · intro s'' hf''
+      simp only at hf''
+      rw [hx] at hf''
+      exact forejump_back (by simpa using hf'') hfj
+
+/-- negative lookahead: `Setjump; Lazybranch L; ⟨body⟩; Backjump; L: Forejump` -/
+theorem neglook_delivers (hT : T ≠ [])
+    (hcode : CodeAt X.p a ([i0 opSetjump, i1 opLazybranch ((a + 3 + sz + 1 : Nat) : Int)] ++ body ++
+      [i0 opBackjump, i0 opForejump]))
+    (hsz : codeLen body = sz) (he : Entry X a i T S C s) (hext : ∀ r ∈ rs, ∃ ext, r.caps = C ++ ext)
+    (hbody : ∀ s1, Entry X (a + 3) i (((a + 1 : Nat) : Int) :: (i : Int) :: (a : Int) :: T)
+        ((C.length : Int) :: (T.length : Int) :: S) C s1 →
+      Delivers X (a + 3 + sz) (((a + 1 : Nat) : Int) :: (i : Int) :: (a : Int) :: T)
+        ((C.length : Int) :: (T.length : Int) :: S) ((C.length : Int) :: (T.length : Int) :: S) C rs s1) :
+    Delivers X (a + 3 + sz + 2) T S S C
+      (match rs with
+       | [] => [⟨i, C⟩]
+       | _ :: _ => []) s := by
+  have h1 : CodeAt X.p a ([i0 opSetjump, i1 opLazybranch ((a + 3 + sz + 1 : Nat) : Int)] ++ body) := hcode.left'
+  have h12 : CodeAt X.p a ([i0 opSetjump] ++ [i1 opLazybranch ((a + 3 + sz + 1 : Nat) : Int)]) := h1.left'
+  have hsj : InstrAt X.p a (i0 opSetjump) := (h12.left').instr
+  have hlb : InstrAt X.p (a + 1) (i1 opLazybranch ((a + 3 + sz + 1 : Nat) : Int)) := by
+    have := h12.right
+    exact (this.cast (by simp) rfl).instr
+  have htail : CodeAt X.p (a + 3 + sz) ([i0 opBackjump] ++ [i0 opForejump]) := by
+    have := hcode.right
+    rw [codeLen_append, hsz] at this
+    exact this.cast (by simp; omega) rfl
+  have hbj : InstrAt X.p (a + 3 + sz) (i0 opBackjump) := (htail.left').instr
+  have hfj : InstrAt X.p (a + 3 + sz + 1) (i0 opForejump) := by
+    have := htail.right
+    exact (this.cast (by simp) rfl).instr
+  have hend : ∃ w, VM.fetch X.p (a + 3 + sz + 2) = .ok w := by
+    have := htail.fetch_end
+    simpa [Nat.add_assoc] using this
+  have hf1 : ∃ w, VM.fetch X.p (a + 1) = .ok w := ⟨_, hlb.fetch⟩
+  have hf3 : ∃ w, VM.fetch X.p (a + 1 + 2) = .ok w := by
+    have := h12.fetch_end
+    simpa [Nat.add_assoc] using this
+  obtain ⟨s1, hr1, he1⟩ := setjump_leads he hsj hf1
+  obtain ⟨s1', hr1', he1'⟩ := lazybranch_leads he1 hlb hf3
+  refine Delivers.of_reach (hr1.trans hr1') ?_
+  have hb := hbody s1' (by simpa [Nat.add_assoc] using he1')
+  cases rs with
+  | nil =>
+    obtain ⟨s2, hr2, hfl⟩ := hb
+    refine ⟨[((a + 3 + sz + 1 : Nat) : Int), (C.length : Int)], forejump_frame hfj _, ?_, ?_⟩
+    · refine Leads.of_reach hr2 ?_
+      obtain ⟨s3, hr3, he3⟩ := lazybranch_back hfl hlb ⟨_, hfj.fetch⟩
+      refine Leads.of_reach hr3 ?_
+      have he3' : Entry X (a + 3 + sz + 1) i ([(a : Int)] ++ T) ((C.length : Int) :: (T.length : Int) :: S) C s3 := by
+        simpa using he3
+      have := forejump_leads (setjump_frame hsj) hT he3' hfj hend
+      simpa using this
+    · intro s'' hf''
+      exact forejump_back (ext := []) (by simpa using hf'') hfj
+  | cons r rs' =>
+    obtain ⟨F, hF, ⟨s2, hr2, he2⟩, _⟩ := hb
+    obtain ⟨ext, hx⟩ := hext r (by simp)
+    refine Leads.of_reach hr2 (Leads.here ?_)
+    have hFr : Framed X.p (F ++ ([((a + 1 : Nat) : Int), (i : Int)] ++ [(a : Int)])) :=
+      hF.append ((lazybranch_frame hlb _).append (setjump_frame hsj))
+    have he2' : Entry X (a + 3 + sz) r.pos ((F ++ ([((a + 1 : Nat) : Int), (i : Int)] ++ [(a : Int)])) ++ T)
+        ((C.length : Int) :: (T.length : Int) :: S) (C ++ ext) s2 := by
+      rw [← hx]; simpa using he2
+    exact backjump_fails hFr hT he2' hbj
+
+end nodes
+
 end RegexVerif.Compile
